@@ -48,6 +48,27 @@ def params_in(t, acc=None):
     return acc
 
 
+def params_reach(t, st, acc=None, seen=None):
+    """Request parameters reachable from a term, through the fields of the abstract objects it designates."""
+    acc = acc if acc is not None else set()
+    seen = seen if seen is not None else set()
+    if isinstance(t, tuple):
+        if t and t[0] == 'param' and isinstance(t[1], int):
+            acc.add(t[1])
+        elif t and t[0] == 'obj' and len(t) > 1 and t[1] in st.heap:
+            if t[1] not in seen:
+                seen.add(t[1])
+                for v in st.heap[t[1]].fields.values():
+                    params_reach(v, st, acc, seen)
+                if isinstance(st.heap[t[1]].tag, dict):          # lambda captures
+                    for v in st.heap[t[1]].tag.values():
+                        params_reach(v, st, acc, seen)
+        else:
+            for x in t:
+                params_reach(x, st, acc, seen)
+    return acc
+
+
 def comparator_in(F, tree_fid):
     """Callee of `comp(element, key)` inside an instantiated tree operation."""
     f = F.fn.get(tree_fid)
@@ -312,6 +333,10 @@ class KeyChecker:
                               'request compares equal, an element is never compared by its own address')
         self.R_cover = ck.rule(prefix + '.KEY-cover', 'every parameter of the requesting function occurs in a '
                                'compared component (nothing is dropped from the key)')
+        self.R_guard = ck.rule(prefix + '.KEY-guard', 'on every path of a request that yields a table element, a '
+                               'parameter absent from the keys of that path is fixed to one value by the path '
+                               'condition (identity with a constant, or every component its interface operator== '
+                               'compares)')
         self.R_lex = ck.rule(prefix + '.KEY-lex', 'the comparator is a lexicographic chain of its component comparisons')
         self.R_atom = ck.rule(prefix + '.KEY-atom', 'component comparisons are verified three-way comparisons '
                               '(E1 over the orderings <,=,>; sequence tail over the exhaustion cases)')
@@ -343,11 +368,14 @@ class KeyChecker:
         fid = f['id']
         f2 = second or f
         n2 = len(f2['params'])
+        sig2 = '(' + ', '.join(contracts.short(p['t']) for p in f2['params']) + ')'
         hit = []
         try:
             runs1 = S.run(fid)
         except Unsupported as e:
             raise AnalysisBroken(f'{fid}: outside the evaluator language: {e}')
+        if second is None:
+            self.guard_paths(f, runs1)
         for st1, kind1, _v1 in runs1:
             if kind1 != 'return':
                 continue
@@ -369,7 +397,7 @@ class KeyChecker:
                         if cont1 != cont2:
                             continue
                         tname = self.table_name(cont1, st2)
-                        inst = f'{contracts.short(contracts.fn_qname(f2["id"]))}/{tname}' + ('' if t2.endswith('insert') else '/find')
+                        inst = f'{contracts.short(contracts.fn_qname(f2["id"]))}{sig2}/{tname}' + ('' if t2.endswith('insert') else '/find')
                         if inst in self.tables_seen:
                             continue
                         self.tables_seen[inst] = True
@@ -446,6 +474,127 @@ class KeyChecker:
         fc['covered'] |= covered
         fc['tables'].append(inst)
         fc['samples'].extend(sample)
+
+    # -- path conditions --------------------------------------------------------------------------
+    @staticmethod
+    def fixed_terms(conds):
+        """Terms equated, on this path, with a value that does not depend on any request parameter."""
+        fixed = set()
+
+        def visit(c, val):
+            if not isinstance(c, tuple) or not c:
+                return
+            if c[0] == 'un' and c[1] == '!':
+                return visit(c[2], not val)
+            if c[0] == 'op' and ((c[1] == '&&' and val) or (c[1] == '||' and not val)):
+                visit(c[2], val)
+                visit(c[3], val)
+                return
+            if c[0] == 'op' and ((c[1] == '==' and val) or (c[1] == '!=' and not val)):
+                a, b = c[2], c[3]
+                if not params_in(b):
+                    fixed.add(a)
+                if not params_in(a):
+                    fixed.add(b)
+        for c, val in conds:
+            visit(c, val)
+        return fixed
+
+    def determined(self, f, i, conds):
+        """Is parameter i of the request fixed to one value by the path condition?  Either the
+        parameter itself (its identity) is equated with a constant, or every component that the
+        interface's own operator== for its type compares is (completeness of that operator== is C04's
+        obligation)."""
+        fixed = self.fixed_terms(conds)
+        pq = ('param', i)
+        if pq in fixed or ('addr', pq) in fixed:
+            return True
+        # the empty spelling: strings are unified by content (C03) and there is one character sequence of
+        # length 0, so `size() == 0` on the parameter's characters fixes a String / word parameter
+        for t in fixed:
+            x, through = t, []
+            while isinstance(x, tuple) and x and x[0] in ('call', 'vcall') and x != pq:
+                name = contracts.fn_simple(x[1])
+                through.append(name)
+                if name in ('size', 'length', 'characters'):
+                    x = x[2]
+                elif name in ('intern', 'get_string') and len(x[3]) == 1:
+                    x = x[3][0]
+                else:
+                    break
+            if x == pq and through and through[0] in ('size', 'length') and \
+                    any(c == (('op', '==', t, ('k', 0, 'int')), True) for c in conds):
+                return True
+        t = f['params'][i]['t'].replace('const ', '').replace('&', '').strip()
+        opeq = f'{t}::operator==(const {t} &) const'
+        if opeq not in self.F.fn:
+            return False
+        key = (opeq,)
+        if key not in self.atom_cache:
+            X = ('param', 9999)
+            try:
+                outs = self.S.run(opeq, this=('param', 9998), args=[X])
+            except Unsupported as e:
+                raise AnalysisBroken(f'{opeq}: outside the evaluator language: {e}')
+            comps = []
+            shape_ok = [len(outs) == 1 and outs[0][1] == 'return']
+
+            def split(c):
+                if c[0] == 'op' and c[1] == '&&':
+                    split(c[2]); split(c[3])
+                elif c[0] == 'op' and c[1] == '==':
+                    for side in (c[2], c[3]):
+                        ps = params_in(side)
+                        if ps == {9998}:
+                            comps.append(side)
+                        elif ps != {9999}:
+                            shape_ok[0] = False
+                else:                             # (a constant conjunct compares nothing: the operator fixes nothing)
+                    shape_ok[0] = False
+            if shape_ok[0]:
+                split(outs[0][2])
+            if not shape_ok[0]:
+                comps = []                        # not a conjunction of component equalities: fixes nothing
+            self.atom_cache[key] = comps
+        comps = self.atom_cache[key]
+
+        def subst(t):
+            if not isinstance(t, tuple):
+                return t
+            if t == ('param', 9998):
+                return pq
+            return tuple(subst(x) for x in t)
+        return bool(comps) and all(subst(c) in fixed for c in comps)
+
+    def guard_paths(self, f, runs):
+        """(guard) on every returning path of the request that consults a table, a parameter that occurs in
+        no key (nor in the comparator's captured state) of that path is fixed to one value by the path
+        condition; otherwise two requests differing only in that parameter share a node."""
+        F, ck = self.F, self.ck
+        n = len(f['params'])
+        sig = '(' + ', '.join(contracts.short(p['t']) for p in f['params']) + ')'
+        seen = {}
+        for st, kind, _v in runs:
+            if kind != 'return':
+                continue
+            ops = [e for e in st.effects if e[0] in ('tree_insert', 'chain_insert')]
+            if not ops:
+                continue
+            used = set()
+            for e in ops:
+                used |= params_reach(e[2], st)
+                used |= params_reach(e[3], st)
+            tabs = '+'.join(self.table_name(e[1], st) for e in ops)
+            missing = [i for i in range(n) if i not in used and not self.determined(f, i, st.conds)]
+            seen.setdefault(tabs, []).extend(missing)
+        for tabs, missing in sorted(seen.items()):
+            inst = contracts.short(contracts.fn_qname(f['id'])) + sig + ' -> ' + tabs
+            missing = sorted(set(missing))
+            ck.check(self.R_guard, inst, not missing,
+                     f'on a path of {f["id"]} that yields an element of {tabs}, parameter(s) '
+                     f'{[f["params"][i]["name"] or i for i in missing]} occur in no key of that path and the path '
+                     f'condition does not fix them to one value: requests differing only there share a node',
+                     loc=f['loc'], fn=f['id'])
 
     def finish_cover(self):
         for fid, fc in sorted(self.fn_cover.items()):
